@@ -65,7 +65,7 @@ def assign_ids(rng: random.Random, nodes: list[dict], edges: list[dict]) -> None
         x["lin"] = lin[x["id"]]
 
 
-def gen_seg(rng: random.Random, nodes: list[dict], edges: list[dict], shape: tuple) -> list[int]:
+def gen_seg(rng: random.Random, nodes: list[dict], edges: list[dict], shape: tuple, tiled: bool | None = None) -> list[int]:
     frame = int(np.prod(shape[1:]))
     T = shape[0]
     data = [0] * (T * frame)
@@ -95,6 +95,16 @@ def gen_seg(rng: random.Random, nodes: list[dict], edges: list[dict], shape: tup
         offs[x["id"]] = chosen
         for o in chosen:
             data[t * frame + o] = x["id"]
+    if nodes and (tiled if tiled is not None else rng.random() < 0.08):
+        # no background at all in the frames that hold nodes: every remaining pixel goes to one of the
+        # frame's nodes (a node that is alone in its frame fills it; confluent cells tile it)
+        for t in range(T):
+            here = sorted({data[t * frame + o] for o in range(frame)} - {0})
+            if not here:
+                continue
+            for o in range(frame):
+                if data[t * frame + o] == 0:
+                    data[t * frame + o] = rng.choice(here)
     return data
 
 
@@ -105,6 +115,15 @@ def gen_case(rng: random.Random, cfg: str | None = None, max_nodes: int = 8, fra
     long_movie = cfg == "seg" and ndim == 3 and frames == 5 and rng.random() < 0.03
     if long_movie:
         frames = 300   # more frames than a byte can count (small frames: 3 x 3)
+    tiny = None
+    if cfg == "seg" and frames == 5 and not long_movie and rng.random() < 0.05:
+        # degenerate sizes: one or two frames of 1 x N / 2 x 2 pixels (a singleton z axis in 3D+t),
+        # completely covered by the nodes
+        frames = rng.choice([1, 1, 2])
+        tiny = (frames, 1, 4) if ndim == 3 else (frames, 1, 2, 2)
+        if ndim == 3 and rng.random() < 0.5:
+            tiny = (frames, 2, 2)
+        max_nodes = min(max_nodes, 3 * frames)
     nodes, edges = gen_forest(rng, max_nodes, frames)
     with_ids = rng.random() < 0.8 if with_ids is None else with_ids
     spec: dict[str, Any] = {"cfg": cfg, "ndim": ndim, "with_ids": with_ids}
@@ -118,8 +137,11 @@ def gen_case(rng: random.Random, cfg: str | None = None, max_nodes: int = 8, fra
             e["w"] = rng.randrange(100)
     if cfg == "seg":
         shape = ((frames, 5, 5) if not long_movie else (frames, 3, 3)) if ndim == 3 else (frames, 3, 3, 3)
+        if tiny is not None:
+            shape = tiny
         spec["shape"] = list(shape)
-        spec["seg"] = gen_seg(rng, nodes, edges, shape)
+        spec["tiled"] = tiny is not None or rng.random() < 0.08
+        spec["seg"] = gen_seg(rng, nodes, edges, shape, tiled=spec["tiled"])
         # a node without pixels cannot exist in a consistent state: drop it
         have = set(spec["seg"])
         nodes = [x for x in nodes if x["id"] in have]
@@ -139,6 +161,10 @@ def gen_case(rng: random.Random, cfg: str | None = None, max_nodes: int = 8, fra
             # 3D+t: surface area / sphericity (the ellipsoid axes raise "math domain error" on the
             # flat masks a 3x3x3 volume mostly holds — upstream numerics, not generated)
             en += rng.sample([F.K_CIRC, F.K_PERIM], rng.randint(1, 2))
+        if spec.get("tiled"):
+            # (shape descriptors of 1-pixel-wide images and of masks without any boundary inside the
+            #  frame — no surface to mesh —: upstream numerics, not generated)
+            en = [k for k in en if k == F.K_IOU]
         spec["enable"] = en
     else:
         r = rng.random()
@@ -336,7 +362,7 @@ def gen_op(rng: random.Random, case: F.Case, tracks, kinds: list[str], always_re
                 return op
         if case.cfg == "seg":
             free = free_pixels(case, tracks, time) if op["time"] is not None else []
-            if free and rng.random() < 0.88:
+            if free and rng.random() < 0.8:
                 op["pixels"] = rng.sample(free, rng.randint(1, min(3, len(free))))
                 if rng.random() < 0.3:
                     # attributes "copied from another node": values for managed features that the
@@ -344,7 +370,7 @@ def gen_op(rng: random.Random, case: F.Case, tracks, kinds: list[str], always_re
                     op["rp_attrs"] = {str(k): rng.randrange(1, 30) for k in rng.sample([F.K_POS, F.K_AREA], rng.randint(1, 2))}
             else:
                 op["pixels"] = None  # missing segmentation and position -> ValueError
-                if rng.random() < 0.5:
+                if rng.random() < 0.6:
                     # a bare point on tracks with a segmentation: position given, no pixels
                     op["pos"] = rng.randrange(1, 50)
         else:
@@ -420,7 +446,7 @@ def gen_op(rng: random.Random, case: F.Case, tracks, kinds: list[str], always_re
             offs = [rng.randrange(frame)]
         r = rng.random()
         bare = [n for n in here if not (seg[t * frame:(t + 1) * frame] == n).any()]
-        if bare and rng.random() < 0.5:
+        if bare and rng.random() < 0.75:
             value = rng.choice(bare)   # give a bare-point node its first pixels
         elif r < 0.2:
             value = 0
@@ -474,8 +500,9 @@ def gen_op(rng: random.Random, case: F.Case, tracks, kinds: list[str], always_re
     if kind in ("undo", "redo"):
         return {"op": kind}
     if kind in ("enable", "disable"):
-        pool = [F.K_POS, F.K_AREA, F.K_IOU] + ([F.K_ELL, F.K_CIRC, F.K_PERIM] if (case.ndim == 3 and case.scale in (None, [1.0] * 3)) else
-                                                ([F.K_CIRC, F.K_PERIM] if (case.ndim == 4 and case.scale in (None, [1.0] * 4)) else []))
+        roomy = bool(case.shape) and min(case.shape[1:]) >= 3 and not case.spec.get("tiled")
+        pool = [F.K_POS, F.K_AREA, F.K_IOU] + ([F.K_ELL, F.K_CIRC, F.K_PERIM] if (roomy and case.ndim == 3 and case.scale in (None, [1.0] * 3)) else
+                                                ([F.K_CIRC, F.K_PERIM] if (roomy and case.ndim == 4 and case.scale in (None, [1.0] * 4)) else []))
         if case.cfg != "seg":
             pool = [F.K_LIN]
         keys = rng.sample(pool, rng.randint(1, min(3, len(pool))))
